@@ -62,6 +62,7 @@ class Recorder:
         with self.lock:
             self.log, self.seen, self.conns, self.serial = [], set(), [], 0
         self.arm_handover = False
+        self.hook_raise = set()
         self.dispatched.set()          # release a worker that may still be parked from the previous scenario
         self.handed_back, self.dispatched = threading.Event(), threading.Event()
 
@@ -891,7 +892,7 @@ class Player:
             return {"violations": [], "case": None, "dist": dist, "inconclusive": True}
         self.settle(expect=1, timeout=long)
         a = self.acct()
-        for _ in range(2):
+        for _ in range(1 if impatient else 2):
             if a == 1 or not srv.loop_alive():
                 break
             time.sleep(0.2)               # a straggler still being served: look again
